@@ -74,7 +74,11 @@ def gen_case(seed):
             if v in M.TRANSFER:
                 if rnd.random() < 0.4:
                     ops.append([rnd.choice(["PASV", "EPSV"]), ""])
-                ops.append([v, arg, {"connect": rnd.choice(["before", "after"])}])
+                o = {"connect": rnd.choice(["before", "after"])}
+                if o["connect"] == "after" and rnd.random() < 0.4:
+                    # the working directory changes between the 1xx mark and the data connection
+                    o["between"] = [rnd.choice([["CWD", rnd.choice(["d1", "d1/d2", "/", "..", "/d1/d2/d3", "home", "/home"])], ["CDUP", ""]]) for _ in range(rnd.randint(1, 2))]
+                ops.append([v, arg, o])
             else:
                 ops.append([v, arg])
     base2 = "/srv/v"  # disjoint from every first base directory
@@ -257,7 +261,7 @@ def run_case(case):
             "events": world.net.seq,
             "steps": world.loop.steps,
             "outcome": world.outcome,
-            "counters": {"commands_checked": n, "backend_paths_checked": info["calls_checked"], "arguments_containing_dotdot": info["escape_attempts"], "pure_subcheck.get_paths_calls": pure, "probe.relogin_as_other_user_and_repeat_path": info.get("user_switches", 0)},
+            "counters": {"commands_checked": n, "backend_paths_checked": info["calls_checked"], "arguments_containing_dotdot": info["escape_attempts"], "pure_subcheck.get_paths_calls": pure, "probe.relogin_as_other_user_and_repeat_path": info.get("user_switches", 0), "probe.commands_between_mark_and_data_connection": sum(st.between for st in info.get("steps", []))},
             "groups": {"base_path": {base: 1}},
             "violations": out,
         }
